@@ -21,7 +21,7 @@ CHECKS = {
  "C18": ("E1", "model_checking",
    "stateless model checking (deviation-bounded DFS over schedules including future-drop actions)",
    "As C05, plus a drop action for every designated reply future at every real suspension point (never polled, waiting for the receive lock, reading from the transport) and for every non-empty victim subset; survivors must complete with their own reply and a follow-up request must succeed. The same scenario is then repeated on the real TLS, SSH and JunosLocal transports: a reader abandoned after every sampled prefix of the reply stream, the other request and a follow-up must still complete.",
-   "Same trusted base as C05; a future is only dropped at a real await, never at an artificial yield; on the real transports the drop point is a byte-stream prefix, not a scheduler choice.", "DESIGN.md §2 E1"),
+   "Same trusted base as C05; replies of 70 KB are included; a panic inside the session layer counts as the verdict of that execution (the layer is generic over Transport and must not need a runtime); a future is only dropped at a real await, never at an artificial yield; on the real transports the drop point is a byte-stream prefix, not a scheduler choice.", "DESIGN.md §2 E1"),
  "C01": ("E2", "model_checking",
    "explicit-state model checking (BFS over reachable configurations; transitions executed by the real code)",
    "Breadth-first search from the empty instance over every configuration the agent itself can produce; each transition runs the agent's real parse-installed -> compare -> render pipeline for one input (per policy: unmanaged / evaluation failed / every subset of a colliding range alphabet per family) and applies the payloads to a reference Junos in every order; checks exact convergence, read-back by the agent's own reader, idempotence of a second run and equality with the state reached from the empty instance.",
